@@ -76,6 +76,8 @@ type Engine struct {
 	curProps      []string
 	counters      map[string]int
 	heapSorts     map[string]*smt.Sort
+	heapIdx       map[string]*smt.Sort // index sort of map heaps
+	iters         map[ssa.Value]*mapIter
 	funcIDs       map[*ssa.Function]int
 	funcByID      map[int]*Closure
 	typeTags      map[string]int
@@ -138,14 +140,21 @@ func (e *Engine) reset() {
 	e.Obls = nil
 	e.pc = e.X.True
 	e.counters = map[string]int{}
-	e.heapSorts = map[string]*smt.Sort{}
-	e.funcIDs = map[*ssa.Function]int{}
-	e.funcByID = map[int]*Closure{}
-	e.typeTags = map[string]int{}
-	e.tagTypes = map[int]types.Type{}
-	e.globals = map[*ssa.Global]*Cell{}
+	if e.heapSorts == nil {
+		e.heapSorts = map[string]*smt.Sort{}
+		e.heapIdx = map[string]*smt.Sort{}
+	}
+	e.iters = nil
+	// identities that package-initialiser states (cached across runs) refer to are kept
+	if e.funcIDs == nil {
+		e.funcIDs = map[*ssa.Function]int{}
+		e.funcByID = map[int]*Closure{}
+		e.typeTags = map[string]int{}
+		e.tagTypes = map[int]types.Type{}
+		e.globals = map[*ssa.Global]*Cell{}
+		e.strLits = map[string]int{}
+	}
 	e.globInit = map[*ssa.Global]Val{}
-	e.strLits = map[string]int{}
 	e.Observe = nil
 	e.UsedStd = map[string]bool{}
 	e.Inlined = map[string]bool{}
